@@ -54,33 +54,42 @@ Proof. intros [a H]. exists a. apply in_app_iff. left. exact H. Qed.
 
 Ltac in_tac := rewrite ?in_app_iff; cbn [In]; intuition (try reflexivity; auto).
 
+Lemma keys_or_set {V} k (v : V) d id (F : Prop) :
+  (In id (map fst d) \/ F) -> In id (map fst (dict_set k v d)) \/ F.
+Proof. intros [H|H]; [left; apply keys_dict_set; exact H|right; exact H]. Qed.
+
+Lemma keys_or_del {V} k (d : list (N * V)) id (F : Prop) :
+  (k = id -> F) -> (In id (map fst d) \/ F) -> In id (map fst (dict_del k d)) \/ F.
+Proof.
+  intros Hk [H|H]; [|right; exact H]. destruct (N.eq_dec k id) as [e|e]; [right; apply Hk, e|].
+  left. apply keys_dict_del_ne; assumption.
+Qed.
+
+Lemma keys_or_flush its (d : list (N * N)) id (F : Prop) :
+  (In id (map fst its) -> F) -> (In id (map fst d) \/ F) -> In id (map fst (flush_map its d)) \/ F.
+Proof.
+  intros Hk [H|H]; [|right; exact H]. destruct (keys_flush its d id H) as [H1|H1]; [left; exact H1|right; apply Hk, H1].
+Qed.
+
 Ltac txmap_leaf :=
   let id := fresh "id" in let Hin := fresh "Hin" in
   intros id Hin;
-  first
-    [ left; exact Hin
-    | left; apply keys_dict_set; exact Hin
-    | match goal with
-      | |- In _ (map fst (dict_del ?k (dict_set ?k ?v ?d))) \/ _ =>
-          destruct (N.eq_dec k id) as [e|e];
-          [ right; subst; eexists; in_tac
-          | left; apply keys_dict_del_ne; [exact e|apply keys_dict_set; exact Hin] ]
-      | |- In _ (map fst (dict_del ?k ?d)) \/ _ =>
-          destruct (N.eq_dec k id) as [e|e];
-          [ right; subst; eexists; in_tac
-          | left; apply keys_dict_del_ne; [exact e|exact Hin] ]
-      | |- In _ (map fst (flush_map ?its ?d)) \/ _ =>
-          destruct (keys_flush its d id Hin) as [H1|H1];
-          [ left; exact H1
-          | right; pose proof (fin_in_flush its id H1); exists [PInt 0; PStr RES_TERMINATING]; in_tac ]
-      end ].
+  repeat first
+    [ apply keys_or_set
+    | apply keys_or_del; [let e := fresh "e" in intros e; subst; eexists; in_tac|]
+    | apply keys_or_flush;
+      [let H1 := fresh "H1" in intros H1;
+       match goal with H : In _ (map fst ?its) |- _ =>
+         pose proof (fin_in_flush its _ H) end;
+       exists [PInt 0; PStr RES_TERMINATING]; in_tac|] ];
+  left; exact Hin.
 
 Lemma txmap_recv_frame fr s :
   forall id, In id (keys (tx_map s)) ->
     In id (keys (tx_map (fst (recv_frame fr s)))) \/ fin id (trace (fst (recv_frame fr s))).
 Proof.
   unfold keys. hm_unfold. destruct fr as [c|m]; [|destruct m]; p_split;
-    unfold state_trace, close_trace; p_split.
+    unfold state_trace, close_trace, close_txmap; p_split.
   all: txmap_leaf.
 Qed.
 
@@ -111,7 +120,8 @@ Lemma txmap_step_o o s : not_rx o = true ->
   forall id, In id (keys (tx_map s)) ->
     In id (keys (tx_map (step s o))) \/ fin id (trace (step s o)).
 Proof.
-  intros Ho. unfold keys. destruct o; try discriminate Ho; st_unfold; p_split; txmap_leaf.
+  intros Ho. unfold keys. destruct o; try discriminate Ho; st_unfold; p_split;
+    unfold state_trace, close_trace, close_txmap; p_split; txmap_leaf.
 Qed.
 
 Lemma noret_step_o o s : not_rx o = true -> (forall d, o <> OSend d) ->
